@@ -8,7 +8,7 @@ from engine.extract import REPO
 LEVEL = "other"
 MIN_OBLIGATIONS = 25
 THOROUGH_CONFIGS = ("headeronly",)
-TECHNIQUE = "inductive invariant decided through four exact rules: iterator-range validity of every range algorithm, class-set tables of the typed insertions against the rank order, clear/one-formatter rules on the CFG, recognised contract idiom of the two primitives; cached-position rule (a position kept in a data member is written by every function that changes the list); computed class sets evaluated by cases; shared mutable class set rule"
+TECHNIQUE = "inductive invariant decided through four exact rules: iterator-range validity of every range algorithm, class-set tables of the typed insertions against the rank order, clear/one-formatter rules on the CFG, recognised contract idiom of the two primitives; cached-position rule (a position kept in a data member is written by every function that changes the list); computed class sets evaluated by cases; shared mutable class set rule; fixed-width position masks over the handler list"
 LEVEL_TEXT = ("'Sorted by class, stable within a class' is an inductive invariant over arbitrary call sequences. It is decided by rules whose conjunction implies it (argument in DESIGN.md): "
               "every range algorithm gets a valid (first, last) pair of the same direction; each typed insertion uses a primitive with class sets L/R that place the newcomer after all elements "
               "of rank <= K and before all of rank > K (near-left: L = {rank <= K}, R within {rank > K}; near-right: R = {rank > K}, L within {rank <= K}; plain append only for the top class); "
